@@ -19,6 +19,8 @@ use std::process::Command;
 pub struct TierResult {
     pub json: Value,
     pub violation: Option<(String, PathBuf)>,
+    /// further violations (e.g. the other back-end's), each with a replay file of its own
+    pub more: Vec<(String, PathBuf)>,
 }
 
 #[derive(Clone, Debug)]
@@ -211,7 +213,8 @@ fn render_rej_once(dir: &Path, target: &Path, shim: &Path, rc: &RunCfg) -> Resul
         }
         let m = &v["message"];
         let sp = &m["spans"][0];
-        r.push_str(&format!("{}|{}|{}:{}\n", m["level"].as_str().unwrap_or("?"), m["message"].as_str().unwrap_or("?"), sp["line_start"], sp["column_start"]));
+        // one line per diagnostic: multi-line messages are flattened
+        r.push_str(&format!("{}|{}|{}:{}\n", m["level"].as_str().unwrap_or("?"), m["message"].as_str().unwrap_or("?").replace('\n', "\\n").replace('\r', ""), sp["line_start"], sp["column_start"]));
         n += 1;
     }
     if n == 0 {
@@ -243,6 +246,65 @@ fn render_acc_mode(dir: &Path, target: &Path, shim: &Path, rc: &RunCfg, hygiene:
 
 fn setup_crate(dir: &Path, repo: &Path, backend: Backend, items: &[String]) -> Result<(), String> {
     setup_crate_as(dir, repo, backend, &crate_source(items), false)
+}
+
+/// rustc stops at the first derive whose output it cannot parse and then prints no expansion
+/// at all.  The `acc` items were filtered with syn; what rustc still rejects (it happens for
+/// a few exotic inputs) is found here, without the shim, and dropped: up to four rounds of
+/// "expand, read the positions of the errors, remove those modules".
+fn prune_acc(dir: &Path, target: &Path, repo: &Path, backend: Backend, items: &[String]) -> Result<Vec<String>, String> {
+    let mut items: Vec<String> = items.to_vec();
+    for _round in 0..4 {
+        let lib = crate_source(&items);
+        setup_crate_as(dir, repo, backend, &lib, false)?;
+        let src_path = dir.join("src/lib.rs");
+        std::fs::write(&src_path, &lib).map_err(|e| e.to_string())?;
+        let out = cargo_cmd(dir, target, None).args(["rustc", "--lib", "--offline", "-q", "--message-format=json", "--", "-Zunpretty=expanded"]).output().map_err(|e| format!("cargo: {}", e))?;
+        let stdout = String::from_utf8_lossy(&out.stdout);
+        let mut bad_lines: Vec<usize> = Vec::new();
+        let mut has_expansion = false;
+        for line in stdout.lines() {
+            if line.starts_with("{\"reason\"") {
+                if let Ok(v) = serde_json::from_str::<Value>(line) {
+                    if v["reason"] == "compiler-message" && v["message"]["level"] == "error" {
+                        if let Some(l) = v["message"]["spans"][0]["line_start"].as_u64() {
+                            bad_lines.push(l as usize);
+                        }
+                    }
+                }
+            } else if line.contains("impl") {
+                has_expansion = true;
+            }
+        }
+        if has_expansion {
+            return Ok(items);
+        }
+        if bad_lines.is_empty() {
+            return Err(format!("acc crate: no expanded output and no error position to prune; stderr: {}", String::from_utf8_lossy(&out.stderr).chars().take(400).collect::<String>()));
+        }
+        // line -> module index
+        let mut starts: Vec<(usize, usize)> = Vec::new();
+        for (ln, l) in lib.lines().enumerate() {
+            if let Some(rest) = l.strip_prefix("pub mod m") {
+                if let Some(k) = rest.split(' ').next().and_then(|x| x.parse::<usize>().ok()) {
+                    starts.push((ln + 1, k));
+                }
+            }
+        }
+        let mut drop: Vec<usize> = bad_lines.iter().filter_map(|l| starts.iter().rev().find(|(s, _)| s <= l).map(|x| x.1)).collect();
+        drop.sort();
+        drop.dedup();
+        if drop.is_empty() {
+            return Err("acc crate: errors outside any module".to_string());
+        }
+        let mut k = 0;
+        items.retain(|_| {
+            let keep = !drop.contains(&k);
+            k += 1;
+            keep
+        });
+    }
+    Err("acc crate: still no expanded output after four pruning rounds".to_string())
 }
 
 /// `alt = true`: the same source as a different *package* (name, version, edition, authors,
@@ -364,12 +426,19 @@ pub fn run(cfg: &Cfg, corpus: &Corpus) -> Result<TierResult, String> {
         // the panicking inputs ride in the `rej` crate: both only produce diagnostics
         let mut rej_items = sel.rej.clone();
         rej_items.extend(sel.pan.iter().cloned());
-        for (kind, items) in [("rej", &rej_items), ("acc", &sel.acc)] {
-            if items.is_empty() {
+        for (kind, items0) in [("rej", &rej_items), ("acc", &sel.acc)] {
+            if items0.is_empty() {
                 continue;
             }
             let dir = base.join(format!("{}-{}", backend.tag(), kind));
             let target = base.join(format!("target-{}", backend.tag()));
+            let pruned: Vec<String>;
+            let items: &Vec<String> = if kind == "acc" {
+                pruned = prune_acc(&dir, &target, &cfg.repo, backend, items0)?;
+                &pruned
+            } else {
+                items0
+            };
             setup_crate(&dir, &cfg.repo, backend, items)?;
             let _ = std::fs::remove_dir_all(dir.join("tmp"));
             // dependencies (incl. the o2o-macros dylib) are built without the shim, so that a
@@ -455,12 +524,17 @@ pub fn run(cfg: &Cfg, corpus: &Corpus) -> Result<TierResult, String> {
     });
     let mut summary = Vec::new();
     let mut violation = None;
+    let mut more = Vec::new();
     let mut compiles = 0;
     for r in [r1, r2] {
         let (s, v, c) = r?;
         summary.extend(s);
-        if violation.is_none() {
-            violation = v;
+        if let Some(v) = v {
+            if violation.is_none() {
+                violation = Some(v);
+            } else {
+                more.push(v);
+            }
         }
         compiles += c;
     }
@@ -472,6 +546,7 @@ pub fn run(cfg: &Cfg, corpus: &Corpus) -> Result<TierResult, String> {
             "crates": summary, "wall_s": t0.elapsed().as_secs_f64(),
         }),
         violation,
+        more,
     })
 }
 
